@@ -32,6 +32,16 @@ Proof.
 Qed.
 Print Assumptions C03_pair_sound.
 
+(* Diagnostics printed into the build log (so that a broken table theorem names the offending rows, file:line):
+   pairs that fail the check and are not listed; listed pairs that no longer fail. Both are [] when the theorems hold. *)
+Definition C03_unlisted_failures :=
+  map (fun q => (q_cname q, q_attr q, q_name q, match find_func T_funcs (q_fid q) with Some f => f_loc f | None => "?"%string end))
+      (filter (fun q => q_scope q && negb (pair_ok T_funcs T_classes q) && negb (listed_as C03_listed q)) T_pairs).
+Definition C03_stale_listed :=
+  map (fun q => (q_cname q, q_attr q, q_name q))
+      (filter (fun q => q_scope q && listed_as C03_listed q && pair_ok T_funcs T_classes q) T_pairs).
+Eval vm_compute in (C03_unlisted_failures, C03_stale_listed).
+
 (* The complete, finite table (every (concrete class, assignable attribute) pair in scope; the row count is printed
    in the evidence): each pair passes the check or its setter is listed as refuted.  By computation. *)
 Theorem C03_all_setters_ok : forall q, In q T_pairs -> q_scope q = true ->
